@@ -115,8 +115,11 @@ class Signal(np.lib.mixins.NDArrayOperatorsMixin):
         if ufunc.nout == 1:
             results = (results,)
 
+        # Label results like the first signal operand (NumPy may dispatch to a
+        # later operand first when its class is a subclass of an earlier one).
+        ref = next((i for i in inputs if isinstance(i, Signal)), self)
         results = tuple(
-            (type(self).like(self, a) if b is None else b) for a, b in zip(results, out)
+            (type(ref).like(ref, a) if b is None else b) for a, b in zip(results, out)
         )
 
         return results[0] if len(results) == 1 else results
